@@ -358,6 +358,15 @@ func (q *cliReq) checkDelivered(c *rt.Call) string {
 			}
 		}
 	}
+	// nothing the server did not send in the response itself: in particular not the fields of an informational (1xx)
+	// header block that preceded it (RFC 7231 6.2: an interim response is a message of its own). Only names of the
+	// scripted vocabulary are judged, so that whatever fasthttp adds by itself (content-type, server, date) is left alone.
+	for k, v := range c.Res.Header.All() {
+		name := strings.ToLower(string(k))
+		if strings.HasPrefix(name, "x-") && want[name] == nil {
+			return fmt.Sprintf("the caller sees response field %q=%.60q, which the server did not send in the final response (interim status sent before it: %d)", name, v, q.Interim)
+		}
+	}
 	if v := string(c.Res.Header.Peek("x-rtag")); v != q.Tag {
 		return fmt.Sprintf("the caller of %s received the response tagged %q", q.Tag, v)
 	}
